@@ -32,6 +32,7 @@ def units(tier, seed):
             out.append({"stage": "law", "p": p, "codes": [c for c, _ in part], "configs": list(CONFIGS), "styles": list(STYLES)})
     out.append({"stage": "degenerate"})
     out.append({"stage": "magnitude"})
+    out.append({"stage": "large-weights"})
     try:
         from mc.env import tape  # noqa: F401
         for p in (1, 2, 3):
@@ -101,6 +102,59 @@ def check_magnitude(p, assign, style):
             if abs(float(got) - float(exact)) > 1e-9 * max(abs(float(exact)), 1e-300):
                 out.append(("lganm:magnitude-%s" % what, "%s: %s of variable %d is %r, exact %r (relative error beyond rounding)" % (desc, what, j, float(got), float(exact))))
     return out[:2]
+
+
+def large_weight_models():
+    """(name, W): DAGs whose weights are large and positive (no cancellation: every entry of the exact law is a sum of positive terms)."""
+    out = []
+    for p, w in ((4, 1000.0), (6, 1000.0), (6, 1e6), (5, 1e8), (8, 100.0)):
+        W = np.zeros((p, p))
+        for i in range(p):
+            for j in range(i + 1, p):
+                W[i, j] = w
+        out.append(("complete p=%d w=%g" % (p, w), W))
+        C = np.zeros((p, p))
+        for i in range(p - 1):
+            C[i, i + 1] = w
+        out.append(("chain p=%d w=%g" % (p, w), C))
+        # the same graphs under labellings that are not topologically sorted (I - W^T is then triangular only up to a permutation)
+        for perm in ([(3 * i + 1) % p for i in range(p)] if p % 3 else [(5 * i + 2) % p for i in range(p)], list(range(p - 1, -1, -1))):
+            if sorted(perm) != list(range(p)):
+                continue
+            P = np.array(perm)
+            out.append(("complete p=%d w=%g relabelled %s" % (p, w, perm), W[P, :][:, P]))
+            out.append(("chain p=%d w=%g relabelled %s" % (p, w, perm), C[P, :][:, P]))
+    return out
+
+
+def check_large_weights(idx, assign_kind):
+    name, W = large_weight_models()[idx]
+    p = len(W)
+    means, variances = np.ones(p), np.ones(p)
+    kw, ora = {}, ({}, {}, {})
+    if assign_kind == "do0":
+        kw = {"do_interventions": {0: (3.0, 2.0)}}
+        ora = ({0: (3.0, 2.0)}, {}, {})
+    elif assign_kind == "mixed":
+        kw = {"do_interventions": {1: (3.0, 2.0)}, "shift_interventions": {0: (0.5, 0.25)}, "noise_interventions": {p - 1: (-1.0, 0.5)}}
+        ora = ({1: (3.0, 2.0)}, {p - 1: (-1.0, 0.5)}, {0: (0.5, 0.25)})
+    desc = "LGANM(%s, means=1, variances=1).sample(population=True, %s)" % (name, kw)
+    try:
+        d = sempler.LGANM(W, means, variances).sample(population=True, **kw)
+    except Exception as e:
+        return [("lganm:large-weights-raises", "%s raised %r for a valid DAG" % (desc, e))]
+    em, ec, *_ = Q.scm_law(W.tolist(), means.tolist(), variances.tolist(), do=ora[0], noise=ora[1], shift=ora[2])
+    out = []
+    worst = 0.0
+    for i in range(p):
+        for got, exact in [(d.mean[i], em[i])] + [(d.covariance[i, j], ec[i][j]) for j in range(p)]:
+            ex = float(exact)
+            err = abs(float(got) - ex) / max(abs(ex), 1e-300) if ex != 0 else abs(float(got))
+            worst = max(worst, err)
+    if worst > 1e-9:
+        out.append(("lganm:large-weights-inaccurate", "%s: worst entrywise relative error %.3g against the exact rational law (all terms positive, so no cancellation excuses it); "
+                    "e.g. mean[0] = %r (exact %r), cov[0,0] = %r (exact %r)" % (desc, worst, float(d.mean[0]), float(em[0]), float(d.covariance[0, 0]), float(ec[0][0]))))
+    return out
 
 
 def degenerate_cases():
@@ -221,6 +275,19 @@ def run_unit(unit):
     if st == "ranges":
         run_ranges(unit["p"], acc)
         return acc.out()
+    if st == "large-weights":
+        for idx in range(len(large_weight_models())):
+            for kind in ("none", "do0", "mixed"):
+                f = check_large_weights(idx, kind)
+                acc.states += 1
+                acc.transitions += 1
+                acc.traces += 1
+                acc.nontrivial += 1
+                acc.extra["large_weight_cases"] += 1
+                acc.outcome(["large", idx, kind, bool(f)])
+                for sig, msg in f:
+                    acc.fail("large-weights", {"idx": idx, "kind": kind}, sig, msg)
+        return acc.out()
     if st == "magnitude":
         for p in (1, 2, 3):
             for style in ("tuple", "float"):
@@ -264,6 +331,8 @@ def run_unit(unit):
 def replay(kind, case):
     if kind == "degenerate":
         return check_degenerate(case)
+    if kind == "large-weights":
+        return check_large_weights(case["idx"], case["kind"])
     if kind == "magnitude":
         return check_magnitude(case["p"], tuple(case["assign"]), case["style"])
     if kind == "ranges":
@@ -278,7 +347,7 @@ def describe(tier, seed):
         "rule": "every labelled DAG p<=3 (25 at p=3) x {generic float, cancelling weights with a zero variance, int64 W/means/variances, int W only} x "
                 "all 8^p assignments of a subset of {do, noise, shift} per variable x parameter styles {(mean,var) tuple with fractional values, "
                 "float scalar, int scalar, integer tuple, tuple with the dict keys inserted in descending order}; quick adds every 40th 4-node DAG, thorough all 543 4-node DAGs x 4096 assignments for a "
-                "float and an int64 model; None / {} for every keyword combination; edgeless models with noise parameters of magnitude 2^50..2^60 under all 8^p assignments (entrywise relative accuracy); LGANM(W,(lo,hi),(lo,hi)) for 5 mean ranges x 3 variance "
+                "float and an int64 model; None / {} for every keyword combination; edgeless models with noise parameters of magnitude 2^50..2^60 under all 8^p assignments (entrywise relative accuracy); complete and chain DAGs on 4..8 nodes with positive weights 100..1e8 (no exception, entrywise relative accuracy against the exact law); LGANM(W,(lo,hi),(lo,hi)) for 5 mean ranges x 3 variance "
                 "ranges with all 3^(2p) answers of the uniform cells, p<=3. non-trivial: some variable carries overlapping interventions",
         "exhaustive": True,
         "bounds": {"p_exhaustive": 4 if tier == "thorough" else 3},
